@@ -9,7 +9,7 @@ from vt import monitors as M
 PROPERTY = 'C08'
 LEVEL = 'exploration'
 RULE = ('shapes = {RTS/CTS traced on the originator, RTS/CTS traced on the responder, BAM traced on either side} x {J1939-21, J1939-22} x windows '
-        '{1,2,all} x latency profiles {<=1 ms, <=5 ms}; one baseline run per shape counts the N source-line events the traced job thread executes '
+        '{1,2,all} x latency profiles {<=1 ms, <=5 ms}, plus failing transfers against a scripted peer (abort on RTS / after the first data packet, CTS then silence, inbound session abandoned / aborted / half sent) traced on the real stack; one baseline run per shape counts the N source-line events the traced job thread executes '
         'in repository code during the transfer; then EVERY k in 1..N: the thread is parked at its k-th line for a hold in {0.2, 1, 5 ms} of virtual '
         'time while frame reception on the same stack goes on (exhaustive for one pre-emption); plus sampled runs with two pre-emptions (same or '
         'both job threads); oracle = same outcome as the baseline: payload delivered intact exactly once, tables empty/pools full 8 s later, job '
@@ -39,6 +39,14 @@ def cases(tier, seed):
                             pk = 3
                         out.append(dict(kind='exhaustive', layer=layer, mode=mode, role=role, w=w, lat=lat, hold=hold,
                                         size=unit * pk - 2, seed=seed * 131 + len(out)))
+    # failing transfers against a scripted peer (abort / silence / abandoned inbound session): the baseline outcome is 'not delivered,
+    # everything released'; pre-emption must not change it, and in particular must not kill the job thread on the abort / time-out paths
+    for layer in ('j1939-21', 'j1939-22'):
+        unit = 60 if layer == 'j1939-22' else 7
+        for mode in ('x_abort_after_dt', 'x_abort_on_rts', 'x_cts_then_silent', 'x_abort_at_t3', 'x_in_abandon', 'x_in_abort', 'x_in_half'):
+            for hold in (((0.005,) if mode == 'x_abort_at_t3' else (0.001,)) if tier == 'quick' else (0.0002, 0.001, 0.005)):
+                out.append(dict(kind='exhaustive', layer=layer, mode=mode, role='orig', w=2, lat=(0.0001, 0.001), hold=hold, size=unit * 4 - 2,
+                                seed=seed * 131 + len(out)))
     nd = 150 if tier == 'quick' else 3000
     for i in range(nd):
         layer = rng.choice(['j1939-21', 'j1939-22'])
@@ -88,22 +96,39 @@ def one_run(case, plan, seed):
 
     sim.trace_hook = mk_tracer('A')
     A = W.stack('A', max_cmdt_packets=w)
-    sim.trace_hook = mk_tracer('B')
-    B = W.stack('B', max_cmdt_packets=w)
-    sim.trace_hook = None
-    ca = W.ca(A, 0x10, identity_number=1)
-    cb = W.ca(B, 0x20, identity_number=2)
-    W.listen_ca(ca, 'A')
-    W.listen_ca(cb, 'B')
-    W.run(0.01)
     rng = random.Random(seed)
     pay = [rng.randrange(256) for _ in range(size)]
-    args = (0, 0xD0, 0x20, 6, list(pay)) if mode == 'cmdt' else (0, 0xFE, 0xF6, 6, list(pay))
+    ca = W.ca(A, 0x10, identity_number=1)
+    W.listen_ca(ca, 'A')
+    if mode.startswith('x_'):
+        from checks.c10 import Peer, RA
+        sim.trace_hook = None
+        counters['B'] = dict(n=0, on=False, plan=[], lines=set())
+        R = Peer(W.bus, sim, rng, layer == 'j1939-22')
+        W.run(0.01)
 
-    def go():
-        for st in counters.values():
-            st['on'] = True
-        W.call('send', ca.send_pgn, *args)
+        def go():
+            for st in counters.values():
+                st['on'] = True
+            if mode.startswith('x_in_'):
+                R.start(0x10, 1, list(pay), 0xD000, mode[5:])
+                W.calls.append(dict(ret=True, exc=None))
+            else:
+                R.plan.append(mode[2:])
+                W.call('send', ca.send_pgn, 0, 0xD0, RA, 6, list(pay))
+    else:
+        sim.trace_hook = mk_tracer('B')
+        B = W.stack('B', max_cmdt_packets=w)
+        sim.trace_hook = None
+        cb = W.ca(B, 0x20, identity_number=2)
+        W.listen_ca(cb, 'B')
+        W.run(0.01)
+        args = (0, 0xD0, 0x20, 6, list(pay)) if mode == 'cmdt' else (0, 0xFE, 0xF6, 6, list(pay))
+
+        def go():
+            for st in counters.values():
+                st['on'] = True
+            W.call('send', ca.send_pgn, *args)
     sim.at(0.02, go)
     W.run(0.02 + 8.0)
     exp_pgn = 0xD000 if mode == 'cmdt' else 0xFEF6
@@ -125,12 +150,13 @@ def judge(case, r, viol, what, obs):
                  exc=p['exc'].split('(')[0], **tag)
     if r['ret'] is None or r['ret'].get('ret') is not True:
         viol.add('send_refused', '%s: send_pgn returned %r' % (what, r['ret']), **tag)
-    if r['exact'] != 1:
-        viol.add('lost_or_duplicated', '%s: payload delivered %d times (pre-empted at %s)' % (what, r['exact'], locs),
-                 how='lost' if r['exact'] == 0 else 'dup', role=case.get('role', 'both'), **tag)
+    want = 0 if case['mode'].startswith('x_') else 1
+    if r['exact'] != want:
+        viol.add('lost_or_duplicated', '%s: payload delivered %d times, %d expected (pre-empted at %s)' % (what, r['exact'], want, locs),
+                 how='lost' if r['exact'] < want else 'dup', role=case.get('role', 'both'), **tag)
     for d in r['other']:
         viol.add('corrupt_delivery', '%s: receiver got len=%d pgn=%05X (pre-empted at %s)' % (what, len(d[4]), d[2], locs), **tag)
-    for d in W.deliv['A']:
+    for d in ([] if case['mode'].startswith('x_in_') else W.deliv['A']):
         fd = layer == 'j1939-22'
         okk = (not fd and len(d[4]) == 8 and d[4][0] == 19) or (fd and len(d[4]) >= 12 and (d[4][0] & 0xF) == 3)
         if not okk:
